@@ -42,6 +42,8 @@ def run(chk):
 
 
 def run_config(chk, facts, cfg):
+    from .sites import run_sites
+    run_sites(chk, facts, "C01-h", cfg)
     # ---- C01-a -----------------------------------------------------------------------------------
     chk.rule("C01-a", "T-ZONE: core reader modules: every Assert discharged by interval analysis; no panicking call "
                       "(unwrap/expect/panic!/range index/copy_from_slice/split_at)")
